@@ -110,6 +110,66 @@ def reenter (ℓ : Locale) (lang : Lang) (x : List Char) : String :=
           if sameType then "changed:content" else "changed:type"
         | _, none => "changed:type"
 
+def hexNat (b : String) : Option Nat :=
+  b.toList.foldl (fun acc c => acc.bind fun a => (hexVal c).map (a * 16 + ·)) (some 0)
+
+def shownOfValue (v : Value) : Shown := shownOfBits (valueBits v)
+
+def fmtOfString (f : String) : Option (List Char) := if f == "general" then none else some f.toList
+
+/-- the style a prior-state descriptor stands for: `fresh` | `q` (explicit quote-prefix style) |
+    `fmt:<hex>` (explicit number format) | `in:<hex>` (a previous input typed into the fresh cell) -/
+def priorStyle (ℓ : Locale) (lang : Lang) (p : String) : Option Style :=
+  if p == "fresh" then some ⟨false, none⟩
+  else if p == "q" then some ⟨true, none⟩
+  else match p.splitOn ":" with
+    | ["fmt", h] => (hexDecode h).map fun f => ⟨false, fmtOfString f⟩
+    | ["in", h] => (hexDecode h).map fun x => (applyInput ℓ lang shownOfValue ⟨false, none⟩ x.toList).2
+    | _ => none
+
+/-- the cell an action leaves on a cell with style `st`: `in:<hex>` (`set_user_input`),
+    `bool:<0|1>` (`update_cell_with_bool`), `num:<bits>` (`update_cell_with_number`),
+    `text:<hex>` (`update_cell_with_text`) -/
+def applyAction (ℓ : Locale) (lang : Lang) (st : Style) (a : String) : Option (Content × Style) :=
+  match a.splitOn ":" with
+  | ["in", h] => (hexDecode h).map fun x => applyInput ℓ lang shownOfValue st x.toList
+  | ["bool", b] => some (.bool (b == "1"), { st with quote := false })
+  | ["num", b] => (hexNat b).map fun bits => (.num (shownOfBits bits), { st with quote := false })
+  | ["text", h] => (hexDecode h).map fun x => (.str x.toList, { st with quote := needsQuote lang x.toList })
+  | _ => none
+
+def contentTag : Content → Nat
+  | .empty => 0 | .str _ => 1 | .num _ => 2 | .bool _ => 3 | .err _ => 4 | .formula => 5
+
+/-- the number content of a double whose 15-digit rounding overflows is shown as `inf` (F18d): the
+    driver's `contentOfBits` handles it; here a `Shown` that overflows prints `inf` -/
+def displayD (ℓ : Locale) (lang : Lang) (c : Content) (st : Style) : Option (List Char) :=
+  match c, displayS ℓ lang c st with
+  | .num d, some _ =>
+    let body := if overflowsF64 (digitsVal d.digits) d.k then (if d.neg then "-inf".toList else "inf".toList)
+                else printShown ℓ.dec d
+    some (if st.quote then '\'' :: body else body)
+  | _, r => r
+
+/-- re-entry on a cell with a prior state -/
+def reenterPrior (ℓ : Locale) (lang : Lang) (prior action : String) : String :=
+  match priorStyle ℓ lang prior with
+  | none => "bad-op"
+  | some st0 =>
+    match applyAction ℓ lang st0 action with
+    | none => "bad-op"
+    | some (c1, st1) =>
+      match displayD ℓ lang c1 st1 with
+      | none => if c1 == .formula then "formula" else "date"
+      | some d =>
+        let (c2, st2) := applyInput ℓ lang shownOfValue st1 d
+        if contentTag c2 != contentTag c1 then "changed:type"
+        else
+          let d2 := displayD ℓ lang c2 st2
+          let ch := (if d2 != some d then ["content"] else []) ++ (if st2 != st1 then ["style"] else []) ++
+                    (if c2 != c1 then ["value"] else [])
+          if ch.isEmpty then "same" else "changed:" ++ "+".intercalate ch
+
 /-- `c18 classify <locale> <lang> <hex>` → description of the resulting cell
     `c18 reenter <locale> <lang> <hex>`  → `same` | `changed:<fields>` | `formula` | `date`
     `c18 shownum <locale> <bits>`        → hex of the displayed content of that double
@@ -128,6 +188,10 @@ def c18 (args : List String) : String :=
     match findLocale loc, (String.toNat? ("0" ++ b)), b.toList.foldl (fun acc c => acc.bind fun a => (hexVal c).map (a * 16 + ·)) (some 0) with
     | some ℓ, _, some bits => hexL (contentOfBits ℓ.dec bits)
     | _, _, _ => "bad-op"
+  | ["prior", loc, la, pr, act] =>
+    match findLocale loc, findLang la with
+    | some ℓ, some lang => reenterPrior ℓ lang pr act
+    | _, _ => "bad-op"
   | ["settext", loc, la, h] =>
     match findLocale loc, findLang la, hexDecode h with
     | some ℓ, some lang, some s =>
